@@ -393,14 +393,178 @@ pub fn generate_program(ctx: &Ctx, batch: u64, n: usize) -> Vec<StructDef> {
         let d = well_formed(r, &defs);
         defs.push(d);
     }
+    // directed shape families the uniform grammar walk reaches too rarely (each instance with random parameters)
+    let k = (n / 25).max(4);
+    for e in ctx.sample_values(ctx.seed_for("directed", batch), k, &proptest::collection::vec(any::<u16>(), 96)) {
+        directed_family(&mut Entropy { words: e, at: 0 }, &mut defs);
+    }
     defs
 }
 
-/// Write lab/src/gen.rs and lab/src/gen.tbl for the given program (subset: indices to register).
-pub fn write_lab(defs: &[StructDef]) -> std::io::Result<()> {
-    let dir = verif_root().join("lab").join("src");
-    std::fs::create_dir_all(&dir)?;
-    let mut rs = String::from("// generated by `zvtverif C12` - do not edit\n#![allow(dead_code, unused_imports)]\nuse zvt::{encoding, length, Zvt};\n\n");
+struct Entropy {
+    words: Vec<u16>,
+    at: usize,
+}
+impl Entropy {
+    fn next(&mut self) -> u16 {
+        let w = self.words[self.at % self.words.len()];
+        self.at += 1;
+        w
+    }
+    fn below(&mut self, n: usize) -> usize {
+        (self.next() as usize * n) >> 16
+    }
+}
+
+/// a scalar field that delimits itself (fixed-size integer or length-prefixed payload): safe at any position
+fn scalar_field(e: &mut Entropy, tag: Option<u16>, card: CardK) -> FieldDef {
+    let (n, b) = INTS[e.below(5)];
+    let (ty, enc, len) = match e.below(8) {
+        0 => (Ty::Int(n, b), EncK::Default, LenK::Empty),
+        1 => (Ty::Int(n, b), EncK::BigEndian, LenK::Empty),
+        2 => (Ty::Int(n, b), EncK::Bcd, [LenK::Llv, LenK::Tlv, LenK::Fixed(1)][e.below(3)].clone()),
+        3 => (Ty::Int(n, b), EncK::Default, LenK::Fixed((b / 8) as usize)),
+        4 => (Ty::Str, EncK::Default, [LenK::Llv, LenK::Lllv, LenK::Tlv][e.below(3)].clone()),
+        5 => (Ty::Str, EncK::Hex, [LenK::Llv, LenK::Lllv, LenK::Tlv][e.below(3)].clone()),
+        6 => (Ty::Str, EncK::Utf8, [LenK::Llv, LenK::Lllv, LenK::Tlv][e.below(3)].clone()),
+        _ => (Ty::Int("u8", 8), EncK::Default, LenK::Empty),
+    };
+    let tlv_attr = tag.is_some() && len == LenK::Tlv && e.below(2) == 0;
+    FieldDef { card, tag, tlv_attr, ty, len, enc, order: e.below(6) as u8 }
+}
+fn fresh_tag(e: &mut Entropy, used: &mut Vec<u16>) -> u16 {
+    loop {
+        let t = match e.below(5) {
+            0 => 0x1f00 | (e.next() & 0xff),
+            1 => 0xff00 | (e.next() & 0xff),
+            _ => e.next() % 0xff,
+        };
+        if t != 0x1f && !used.contains(&t) {
+            used.push(t);
+            return t;
+        }
+    }
+}
+
+/// One instance of the directed families:
+///  - `Inner`: tagged fields only, at least one of them mandatory (so that "absent" decodes to an error, not to an empty value);
+///  - `Tail`: 0..2 self-delimiting positional fields, then `Option<Inner>` (or `Inner`) positional and WITHOUT a length prefix
+///    as the last field;
+///  - `Mid`: the same, followed by tagged fields of the enclosing struct whose tags differ from `Inner`'s;
+///  - `Deep`: `Mid` / `Tail` as an optional length-prefixed member one level further out;
+///  - `Many`: 3..6 mandatory tagged fields (plus optional ones) in one struct.
+fn directed_family(e: &mut Entropy, defs: &mut Vec<StructDef>) {
+    let mut used: Vec<u16> = vec![];
+    // Inner
+    let nreq = 1 + e.below(2);
+    let nopt = e.below(3);
+    let mut fields = vec![];
+    for _ in 0..nreq {
+        let t = fresh_tag(e, &mut used);
+        fields.push(scalar_field(e, Some(t), CardK::One));
+    }
+    for _ in 0..nopt {
+        let t = fresh_tag(e, &mut used);
+        let card = if e.below(4) == 0 { CardK::Vec } else { CardK::Opt };
+        let mut f = scalar_field(e, Some(t), card);
+        if card == CardK::Vec && f.len == LenK::Empty {
+            f.len = LenK::Llv; // repeated elements carry their own length
+            f.enc = if matches!(f.ty, Ty::Int(..)) { EncK::Bcd } else { f.enc };
+        }
+        fields.push(f);
+    }
+    let rot = e.below(fields.len());
+    fields.rotate_left(rot);
+    defs.push(StructDef { ctrl: None, fields, depth: 0, self_delimiting: false });
+    let inner = defs.len() - 1;
+    let open = |e: &mut Entropy, card: CardK| FieldDef { card, tag: None, tlv_attr: false, ty: Ty::Struct(inner), len: LenK::Empty, enc: EncK::Default, order: e.below(6) as u8 };
+    let positional = |e: &mut Entropy| -> Vec<FieldDef> { (0..e.below(3)).map(|_| scalar_field(e, None, CardK::One)).collect() };
+    // Tail
+    let mut f = positional(e);
+    let card = if e.below(4) == 0 { CardK::One } else { CardK::Opt };
+    f.push(open(e, card));
+    let ctrl = if e.below(3) == 0 { Some((e.next() as u8, e.next() as u8)) } else { None };
+    defs.push(StructDef { ctrl, fields: f, depth: 1, self_delimiting: false });
+    let tail = defs.len() - 1;
+    // Mid
+    let mut f = positional(e);
+    let card = if e.below(4) == 0 { CardK::One } else { CardK::Opt };
+    f.push(open(e, card));
+    for _ in 0..(1 + e.below(3)) {
+        let t = fresh_tag(e, &mut used);
+        let card = [CardK::One, CardK::Opt, CardK::Opt][e.below(3)];
+        f.push(scalar_field(e, Some(t), card));
+    }
+    let ctrl = if e.below(3) == 0 { Some((e.next() as u8, e.next() as u8)) } else { None };
+    defs.push(StructDef { ctrl, fields: f, depth: 1, self_delimiting: false });
+    let mid = defs.len() - 1;
+    // Deep
+    let mut f = positional(e);
+    let which = if e.below(2) == 0 { tail } else { mid };
+    if defs[which].ctrl.is_none() {
+        let t = fresh_tag(e, &mut used);
+        let tagged = e.below(2) == 0;
+        f.push(FieldDef { card: CardK::Opt, tag: if tagged { Some(t) } else { None }, tlv_attr: false, ty: Ty::Struct(which), len: if e.below(2) == 0 { LenK::Tlv } else { LenK::Lllv }, enc: EncK::Default, order: e.below(6) as u8 });
+        if tagged {
+            let t2 = fresh_tag(e, &mut used);
+            f.push(scalar_field(e, Some(t2), CardK::Opt));
+        }
+        defs.push(StructDef { ctrl: None, fields: f, depth: 2, self_delimiting: false });
+    }
+    // Many
+    let mut used2: Vec<u16> = vec![];
+    let mut f = positional(e);
+    for _ in 0..(3 + e.below(4)) {
+        let t = fresh_tag(e, &mut used2);
+        f.push(scalar_field(e, Some(t), CardK::One));
+    }
+    for _ in 0..e.below(3) {
+        let t = fresh_tag(e, &mut used2);
+        f.push(scalar_field(e, Some(t), CardK::Opt));
+    }
+    let np = f.iter().filter(|x| x.tag.is_none()).count();
+    let rot = e.below(f.len() - np);
+    f[np..].rotate_left(rot);
+    defs.push(StructDef { ctrl: if e.below(2) == 0 { Some((e.next() as u8, e.next() as u8)) } else { None }, fields: f, depth: 0, self_delimiting: false });
+}
+
+/// Where the generated crate of a property lives: C12 uses the committed `lab/` crate; the lab halves of other properties get
+/// a private copy under `target/lab-<ID>/` (own package name, so checks of different properties can run side by side).
+pub fn lab_dir(prop: &str) -> std::path::PathBuf {
+    if prop == "C12" {
+        verif_root().join("lab")
+    } else {
+        verif_root().join("target").join(format!("lab-{prop}"))
+    }
+}
+pub fn lab_bin(prop: &str) -> std::path::PathBuf {
+    let name = if prop == "C12" { "zvtlab".to_string() } else { format!("zvtlab-{}", prop.to_lowercase()) };
+    verif_root().join("target").join("verif").join(name)
+}
+fn prepare_lab_dir(prop: &str) -> std::io::Result<std::path::PathBuf> {
+    let dir = lab_dir(prop);
+    std::fs::create_dir_all(dir.join("src"))?;
+    if prop != "C12" {
+        let base = verif_root().join("lab");
+        let toml = std::fs::read_to_string(base.join("Cargo.toml"))?
+            .replace("name = \"zvtlab\"", &format!("name = \"zvtlab-{}\"", prop.to_lowercase()))
+            .replace("path = \"../harness\"", &format!("path = \"{}\"", verif_root().join("harness").display()));
+        std::fs::write(dir.join("Cargo.toml"), toml)?;
+        std::fs::copy(base.join("src").join("main.rs"), dir.join("src").join("main.rs"))?;
+        if let Ok(lock) = std::fs::read(base.join("Cargo.lock")) {
+            if !dir.join("Cargo.lock").exists() {
+                let text = String::from_utf8_lossy(&lock).replace("name = \"zvtlab\"", &format!("name = \"zvtlab-{}\"", prop.to_lowercase()));
+                std::fs::write(dir.join("Cargo.lock"), text)?;
+            }
+        }
+    }
+    Ok(dir)
+}
+
+/// Write src/gen.rs and src/gen.tbl of the property's lab crate for the given program.
+pub fn write_lab(prop: &str, defs: &[StructDef]) -> std::io::Result<()> {
+    let dir = prepare_lab_dir(prop)?.join("src");
+    let mut rs = String::from("// generated by `zvtverif` - do not edit\n#![allow(dead_code, unused_imports)]\nuse zvt::{encoding, length, Zvt};\n\n");
     let mut tbl = String::new();
     for (i, d) in defs.iter().enumerate() {
         rs += &rust_source(i, d);
@@ -421,11 +585,11 @@ pub fn write_lab(defs: &[StructDef]) -> std::io::Result<()> {
     Ok(())
 }
 
-fn cargo_build_lab() -> Result<(), String> {
+fn cargo_build_lab(prop: &str) -> Result<(), String> {
     let root = verif_root();
     let out = std::process::Command::new("cargo")
         .args(["build", "--quiet", "--profile", "verif"])
-        .current_dir(root.join("lab"))
+        .current_dir(lab_dir(prop))
         .env("CARGO_NET_OFFLINE", "true")
         .env("CARGO_TARGET_DIR", root.join("target"))
         .output()
@@ -441,17 +605,17 @@ pub fn run(tier: Tier) -> i32 {
     let ctx = Ctx::new("C12", "exploration", tier);
     let n = tier.pick(250usize, 2400);
     let defs = generate_program(&ctx, 0, n);
-    if let Err(e) = write_lab(&defs) {
+    if let Err(e) = write_lab("C12", &defs) {
         eprintln!("cannot write lab sources: {e}");
         return 2;
     }
-    if let Err(e) = cargo_build_lab() {
+    if let Err(e) = cargo_build_lab("C12") {
         // generated programs follow the documented grammar: a compile error is a harness problem or a macro regression
         println!("BUILD-FAILED lab crate does not compile against /repo's derive macro:\n{e}");
         return 2;
     }
     let root = verif_root();
-    let status = std::process::Command::new(root.join("target").join("verif").join("zvtlab")).arg(tier.name()).env("VERIF_ROOT", &root).env("VERIF_SEED", ctx.seed.to_string()).status();
+    let status = std::process::Command::new(lab_bin("C12")).arg(tier.name()).env("VERIF_ROOT", &root).env("VERIF_SEED", ctx.seed.to_string()).env("VERIF_LAB_PROP", "C12").status();
     match status {
         Ok(s) => s.code().unwrap_or(2),
         Err(e) => {
@@ -461,28 +625,64 @@ pub fn run(tier: Tier) -> i32 {
     }
 }
 
+/// The lab half of another property (C13: tagged-group edits, C14: suffix / shortened-length relations) on generated
+/// structs: generates a program, builds it in the property's own lab crate, runs only that property's conditions and
+/// returns the counts and violations for the caller to merge into its own evidence. Err(code) = infrastructure problem.
+pub fn lab_side(prop: &'static str, ctx: &Ctx, tier: Tier) -> Result<Stats, i32> {
+    let n = tier.pick(120usize, 900);
+    let defs = generate_program(ctx, 0, n);
+    if let Err(e) = write_lab(prop, &defs) {
+        eprintln!("cannot write lab sources: {e}");
+        return Err(2);
+    }
+    if let Err(e) = cargo_build_lab(prop) {
+        println!("BUILD-FAILED lab crate does not compile against /repo's derive macro:\n{e}");
+        return Err(2);
+    }
+    let root = verif_root();
+    let stats_file = root.join("target").join(format!("lab-stats-{prop}.json"));
+    let _ = std::fs::remove_file(&stats_file);
+    let status = std::process::Command::new(lab_bin(prop)).arg(tier.name()).env("VERIF_ROOT", &root).env("VERIF_SEED", ctx.seed.to_string()).env("VERIF_LAB_PROP", prop).env("VERIF_LAB_STATS", &stats_file).status();
+    match status.map(|s| s.code()) {
+        Ok(Some(0)) => {}
+        Ok(Some(2)) | Ok(None) | Err(_) => return Err(2),
+        Ok(Some(c)) => {
+            eprintln!("lab binary exited with {c}");
+            return Err(2);
+        }
+    }
+    let text = std::fs::read_to_string(&stats_file).map_err(|_| 2)?;
+    let v: Value = serde_json::from_str(&text).map_err(|_| 2)?;
+    let mut s = Stats::from_value(&v).ok_or(2)?;
+    // keep the lab's classes apart from the caller's
+    s.classes = s.classes.into_iter().map(|(k, n)| (format!("lab:{k}"), n)).collect();
+    Ok(s)
+}
+
 /// Replay: the file carries the struct sources (with their nested dependencies) and table entries; rebuild a lab crate
 /// with only those and re-run the one case.
 pub fn replay(_check: &str, i: &Value) -> Option<CheckResult> {
+    replay_for("C12", i)
+}
+pub fn replay_for(prop: &str, i: &Value) -> Option<CheckResult> {
     let src = i.get("program_rs")?.as_str()?;
     let tbl = i.get("program_tbl")?.as_str()?;
     let reg = i.get("registry_rs")?.as_str()?;
-    let dir = verif_root().join("lab").join("src");
-    std::fs::create_dir_all(&dir).ok()?;
-    let rs = format!("// generated by `zvtverif C12 --replay`\n#![allow(dead_code, unused_imports)]\nuse zvt::{{encoding, length, Zvt}};\n\n{src}\n{reg}\npub const TABLE: &str = include_str!(\"gen.tbl\");\n");
+    let dir = prepare_lab_dir(prop).ok()?.join("src");
+    let rs = format!("// generated by `zvtverif {prop} --replay`\n#![allow(dead_code, unused_imports)]\nuse zvt::{{encoding, length, Zvt}};\n\n{src}\n{reg}\npub const TABLE: &str = include_str!(\"gen.tbl\");\n");
     std::fs::write(dir.join("gen.rs"), rs).ok()?;
     std::fs::write(dir.join("gen.tbl"), tbl).ok()?;
-    if let Err(e) = cargo_build_lab() {
-        return Some(Err(Violation::new("lab", "C12 kind=replay-build-failed".to_string(), e, i.clone())));
+    if let Err(e) = cargo_build_lab(prop) {
+        return Some(Err(Violation::new("lab", format!("{prop} kind=replay-build-failed"), e, i.clone())));
     }
     let root = verif_root();
-    let tmp = root.join("target").join("c12-replay-case.json");
+    let tmp = root.join("target").join(format!("{}-replay-case.json", prop.to_lowercase()));
     std::fs::write(&tmp, serde_json::to_string(i).ok()?).ok()?;
-    let out = std::process::Command::new(root.join("target").join("verif").join("zvtlab")).arg("--replay-case").arg(&tmp).env("VERIF_ROOT", &root).output().ok()?;
+    let out = std::process::Command::new(lab_bin(prop)).arg("--replay-case").arg(&tmp).env("VERIF_ROOT", &root).env("VERIF_LAB_PROP", prop).output().ok()?;
     let text = String::from_utf8_lossy(&out.stdout).to_string();
     if out.status.code() == Some(0) {
         Some(Ok(()))
     } else {
-        Some(Err(Violation::new("lab", i.get("sig").and_then(|s| s.as_str()).unwrap_or("C12 replay").to_string(), text, i.clone())))
+        Some(Err(Violation::new("lab", i.get("sig").and_then(|s| s.as_str()).unwrap_or("lab replay").to_string(), text, i.clone())))
     }
 }
